@@ -135,7 +135,7 @@ Theorem C03_monitor_accepts_model : forall scrub cfg m client,
   (forall k, In k identity_keys -> client_conn_names client k = false) ->
   (scrub = true \/ forall k, In k identity_keys -> client_sent client k = false) ->
   let out := upstream scrub cfg m client in
-  holds cfg m client (h_get k_xfu out) (h_get k_xfe out) (h_get k_xfg out) (h_get k_xfat out) (h_get k_cookie out)
+  holds cfg RProxy m client (h_get k_xfu out) (h_get k_xfe out) (h_get k_xfg out) (h_get k_xfat out) (h_get k_cookie out)
         (map name_value (read_cookies (h_get k_cookie out))) = true.
 Proof. exact monitor_accepts_model. Qed.
 Print Assumptions C03_monitor_accepts_model.
@@ -166,8 +166,51 @@ Theorem C03_monitor_accepts_model_due : forall scrub cfg m allowed d client,
   (forall k, In k identity_keys -> client_conn_names client k = false) ->
   (scrub = true \/ forall k, In k identity_keys -> client_sent client k = false) ->
   let out := upstream scrub cfg (model_mode allowed d m) client in
-  holds cfg (observed_mode (model_saved allowed d m) m) client
+  holds cfg RProxy (observed_mode (model_saved allowed d RProxy m) m) client
         (h_get k_xfu out) (h_get k_xfe out) (h_get k_xfg out) (h_get k_xfat out) (h_get k_cookie out)
         (map name_value (read_cookies (h_get k_cookie out))) = true.
 Proof. exact monitor_accepts_model_due. Qed.
 Print Assumptions C03_monitor_accepts_model_due.
+
+(* ---- every route of OAuthProxy.Handler() that ends in the reverse proxy -------------------------
+   PathPrefix("/") -> Proxy (the statements above) and /favicon.ico -> Favicon = Authenticate then
+   Proxy. Stated for the code with the scrub step (87f9230). *)
+
+(* The session cookie reaches the upstream on no route, in no mode. *)
+Theorem C03_cookie_stripped_all_routes : forall scrub cfg r m client c,
+  In c (read_cookies (h_get k_cookie (upstream_r scrub cfg r m client))) -> c_name c <> cookie_name cfg.
+Proof. exact upstream_r_cookie_stripped. Qed.
+Print Assumptions C03_cookie_stripped_all_routes.
+
+Theorem C03_other_cookies_kept_all_routes : forall scrub cfg r m client,
+  (inject_ran r m = false \/ (operator_clean cfg k_cookie /\ operator_clean cfg k_connection)) ->
+  client_conn_names client k_cookie = false ->
+  map name_value (read_cookies (h_get k_cookie (upstream_r scrub cfg r m client))) = want_cookies (cookie_name cfg) client.
+Proof. exact upstream_r_cookies_kept. Qed.
+Print Assumptions C03_other_cookies_kept_all_routes.
+
+(* /favicon.ico, authenticated: exactly the session's identity, and the access token only when
+   enabled — whatever the client sent and whatever Favicon's own Authenticate had put there. *)
+Theorem C03_favicon_auth_headers : forall cfg s1 s client,
+  let h := to_reverse_proxy_r true cfg (RFavicon s1) (Authenticated s) client in
+  h_get k_xfu h = [s_user s] /\ h_get k_xfe h = [s_email s] /\ h_get k_xfg h = [join [44] (s_groups s)] /\
+  h_get k_xfat h = allowed_token cfg s.
+Proof. exact favicon_auth_headers. Qed.
+Print Assumptions C03_favicon_auth_headers.
+
+(* /favicon.ico matched by a skip pattern: no identity header reaches the upstream. *)
+Theorem C03_favicon_skip_absent : forall cfg s1 client k,
+  In k identity_keys -> h_get k (upstream_r true cfg (RFavicon s1) SkipAuth client) = [].
+Proof. exact favicon_skip_absent. Qed.
+Print Assumptions C03_favicon_skip_absent.
+
+(* The monitor accepts the model on every route (the form judge uses). *)
+Theorem C03_monitor_accepts_model_routes : forall cfg r m allowed d client,
+  (inject_ran r m = false \/ operator_clean cfg k_connection) ->
+  (forall k, In k identity_keys -> client_conn_names client k = false) ->
+  let out := upstream_r true cfg (model_route allowed d r) (model_mode allowed d m) client in
+  holds cfg (model_route allowed d r) (observed_mode (model_saved allowed d r m) m) client
+        (h_get k_xfu out) (h_get k_xfe out) (h_get k_xfg out) (h_get k_xfat out) (h_get k_cookie out)
+        (map name_value (read_cookies (h_get k_cookie out))) = true.
+Proof. exact monitor_accepts_model_routes_due. Qed.
+Print Assumptions C03_monitor_accepts_model_routes.
